@@ -37,7 +37,7 @@ def main():
         j = int(args[1]); args = args[2:]
     if args[:1] == ["--all"]:
         allp = True; args = args[1:]
-    ids = args or sorted(x for x in os.listdir(os.path.join(V, "seeded")) if x.startswith("BN-") or x.startswith("BN2-"))
+    ids = args or sorted(x for x in os.listdir(os.path.join(V, "seeded")) if x.startswith("BN"))
     res = {}
     with ThreadPoolExecutor(j) as ex:
         for sid, r in ex.map(lambda s: run_one(s, allp), ids):
